@@ -173,7 +173,24 @@ def _gen_fresnel(rng):
                 th = min(th, math.pi / 2 * (1 - 1e-10))
             aoi.append(float(th))
         pairs.append(dict(n1=n1, n2=n2, aoi=aoi))
-    return dict(kind='fresnel', pairs=pairs, wavelength=round(float(rng.uniform(0.4, 1.0)), 4))
+    case = dict(kind='fresnel', pairs=pairs, wavelength=round(float(rng.uniform(0.4, 1.0)), 4))
+    if rng.random() < 0.35:
+        # dispersive media and ONE bundle whose rays carry different wavelengths: the index pair is a per-ray quantity
+        gp = []
+        for _ in range(2):
+            def medium():
+                r_ = rng.random()
+                if r_ < 0.3:
+                    return dict(n=1.0)
+                if r_ < 0.9:
+                    g = L.GLASSES[int(rng.integers(len(L.GLASSES)))]
+                    return dict(glass=g[0], ref=g[1])
+                return dict(abbe=[round(float(rng.uniform(1.45, 1.9)), 4), round(float(rng.uniform(25, 65)), 2)])
+            m1, m2 = medium(), medium()
+            gp.append(dict(m1=m1, m2=m2, wls=[round(float(w), 4) for w in rng.uniform(0.4, 0.9, 8)],
+                           u=[round(float(x), 6) for x in rng.uniform(0.0, 0.98, 8)]))
+        case['glass_pairs'] = gp
+    return case
 
 
 def _gen_element(rng):
@@ -380,6 +397,35 @@ def check_fresnel(case, rec):
             rec.cls('fresnel-grazing(>85deg)')
         if n1 > n2 and np.any(O.snell_cos_t(n1, n2, aoi) < 0.05):
             rec.cls('fresnel-near-critical(cos_t<0.05)')
+    for gp in case.get('glass_pairs', []):
+        from optiland.rays import RealRays
+        m1, m2 = L.make_material(gp['m1']), L.make_material(gp['m2'])
+        wls = np.asarray(gp['wls'], float)
+        # per-ray indices from the library's own material objects (C18 judges those), one wavelength at a time
+        n1 = np.array([float(np.ravel(m1.n(float(w)))[0]) for w in wls])
+        n2 = np.array([float(np.ravel(m2.n(float(w)))[0]) for w in wls])
+        lim = np.arcsin(np.minimum(1.0, n2 / n1 * math.sqrt(1 - COS_T_MIN ** 2)))
+        aoi = np.minimum(np.asarray(gp['u'], float) * lim, math.pi / 2 * (1 - 1e-6))
+        n = wls.size
+        z = np.zeros(n)
+        rays = RealRays(z.copy(), z.copy(), z.copy(), z.copy(), z.copy(), np.ones(n), np.ones(n), wls.copy())
+        jf = JonesFresnel(m1, m2)
+        Mt = jf.calculate_matrix(rays, reflect=False, aoi=aoi.copy())
+        Mr = jf.calculate_matrix(rays, reflect=True, aoi=aoi.copy())
+        M0t = jf.calculate_matrix(rays, reflect=False, aoi=z.copy())
+        M0r = jf.calculate_matrix(rays, reflect=True, aoi=z.copy())
+        tag = f"{gp['m1']} -> {gp['m2']}, one bundle with wavelengths {gp['wls']}"
+        R0 = O.normal_incidence_R(n1, n2)
+        for name, idx in (('s', 0), ('p', 1)):
+            R, T = O.power_RT(n1, n2, aoi, Mr[:, idx, idx], Mt[:, idx, idx])
+            rec.close(f'fresnel-energy-{name}', R + T, np.ones(n), TOL, scale=1.0 + 1e-3 / O.snell_cos_t(n1, n2, aoi) ** 2,
+                      msg=f'R_{name}+T_{name} != 1 ({tag})', detail=dict(R=R, T=T, aoi=aoi, n1=n1, n2=n2))
+            R, T = O.power_RT(n1, n2, z, M0r[:, idx, idx], M0t[:, idx, idx])
+            rec.close('fresnel-normal', np.concatenate([R, T]), np.concatenate([R0, 1 - R0]), TOL, scale=1.0,
+                      msg=f'normal incidence (R_{name},T_{name}) vs ((n1-n2)/(n1+n2))^2 per ray ({tag})',
+                      detail=dict(n1=n1, n2=n2))
+        rec.cls('fresnel-dispersive-mixed-wavelength-bundle')
+        rec.event('fresnel_points', 4 * n)
     rec.event('fresnel_points', npts)
     if oblique:
         rec.nontrivial_case()
